@@ -632,3 +632,171 @@ pub mod c03 {
         Backend::new(cfg, keys, false)
     }
 }
+
+/// C41: an identity whose `Limits` are the bounded defaults. `Identity::new` is crate-private and
+/// every public constructor (`from_impersonate_entry_readwrite`, …) uses `Limits::unlimited()`,
+/// which makes the `filter_max_elements` budget of `Filter::from_ldap_ro` / `from_scim_ro`
+/// unobservable. Add-only.
+pub mod c41 {
+    use crate::prelude::*;
+    use std::sync::Arc;
+
+    /// Like `Identity::from_impersonate_entry_readwrite`, with `Limits::default()`.
+    pub fn ident_default_limits(entry: Arc<EntrySealedCommitted>) -> Identity {
+        Identity::new(
+            IdentType::User(IdentUser { entry }),
+            Source::Internal,
+            UUID_INTERNAL_SESSION_ID,
+            AccessScope::ReadWrite,
+            crate::be::Limits::default(),
+            None,
+        )
+    }
+
+    /// The internal system identity (`Identity::from_internal` is crate-private): no access
+    /// control, unlimited limits.
+    pub fn ident_internal() -> Identity {
+        Identity::from_internal()
+    }
+
+    /// The search event the LDAP gateway builds for a client filter
+    /// (`SearchEvent::new_ext_impersonate_uuid`, crate-private), for the internal identity and
+    /// all attributes.
+    pub fn ldap_search_event(
+        qs: &mut QueryServerReadTransaction,
+        lf: &ldap3_proto::proto::LdapFilter,
+    ) -> Result<crate::event::SearchEvent, OperationError> {
+        crate::event::SearchEvent::new_ext_impersonate_uuid(qs, Identity::from_internal(), lf, None)
+    }
+}
+
+/// C34: the loaded key object of an entry (`server::keys` is crate-private): its sign / encipher /
+/// verify / decipher / hkdf entry points flattened to strings and bytes, the write transaction's
+/// cid and trim cid, and two pure helpers (public DER of a private DER, HKDF-expand of a PRK) the
+/// harness uses to craft a `Retained` record and to identify which HKDF key was used. Add-only.
+pub mod c34 {
+    use super::*;
+    use crate::server::keys::{KeyObject, KeyProvidersTransaction};
+    use compact_jwt::compact::JweCompact;
+    use compact_jwt::jwe::JweBuilder;
+    use compact_jwt::jws::JwsBuilder;
+    use compact_jwt::traits::*;
+    use compact_jwt::crypto::JwsRs256Signer;
+    use compact_jwt::{JwsCompact, JwsEs256Signer};
+    use crypto_glue::hkdf_s256::HkdfSha256;
+    use std::str::FromStr;
+    use std::sync::Arc;
+
+    /// `objects[uuid]` of the transaction's key providers: what every sign / verify uses.
+    pub struct Handle(Arc<KeyObject>);
+
+    pub fn handle<'a, T: QueryServerTransaction<'a>>(qs: &T, uuid: Uuid) -> Option<Handle> {
+        qs.get_key_providers()
+            .get_key_object_handle(uuid)
+            .map(Handle)
+    }
+
+    pub fn txn_cid(qs: &QueryServerWriteTransaction<'_>) -> (Duration, Uuid) {
+        let c = qs.get_cid();
+        (c.ts, c.s_uuid)
+    }
+
+    pub fn txn_trim_cid(qs: &QueryServerWriteTransaction<'_>) -> (Duration, Uuid) {
+        let c = qs.trim_cid();
+        (c.ts, c.s_uuid)
+    }
+
+    impl Handle {
+        /// `usage`: "es256" | "rs256" | "hs256" (JWS, compact form) | "jwe" (A128KW + A128GCM).
+        /// Returns `(kid header, compact token)`.
+        pub fn sign(
+            &self,
+            usage: &str,
+            payload: &[u8],
+            t: Duration,
+        ) -> Result<(Option<String>, String), String> {
+            match usage {
+                "jwe" => {
+                    let jwe = JweBuilder::from(payload.to_vec()).build();
+                    let c = self
+                        .0
+                        .jwe_a128gcm_encrypt(&jwe, t)
+                        .map_err(|e| format!("{e:?}"))?;
+                    Ok((c.kid().map(str::to_string), c.to_string()))
+                }
+                _ => {
+                    let jws = JwsBuilder::from(payload.to_vec()).build();
+                    let c = match usage {
+                        "es256" => self.0.jws_es256_sign(&jws, t),
+                        "rs256" => self.0.jws_rs256_sign(&jws, t),
+                        "hs256" => self.0.jws_hs256_sign(&jws, t),
+                        other => return Err(format!("unknown usage {other}")),
+                    }
+                    .map_err(|e| format!("{e:?}"))?;
+                    Ok((c.kid().map(str::to_string), c.to_string()))
+                }
+            }
+        }
+
+        /// `jws_verify` (dispatch on the token's alg) or `jwe_decrypt`; `Ok(payload)` = accepted.
+        pub fn verify(&self, usage: &str, token: &str) -> Result<Vec<u8>, String> {
+            if usage == "jwe" {
+                let c = JweCompact::from_str(token).map_err(|e| format!("parse:{e:?}"))?;
+                self.0
+                    .jwe_decrypt(&c)
+                    .map(|j| j.payload().to_vec())
+                    .map_err(|e| format!("{e:?}"))
+            } else {
+                let c = JwsCompact::from_str(token).map_err(|e| format!("parse:{e:?}"))?;
+                self.0
+                    .jws_verify(&c)
+                    .map(|j| j.payload().to_vec())
+                    .map_err(|e| format!("{e:?}"))
+            }
+        }
+
+        pub fn hkdf(&self, info: &[u8], len: usize, t: Duration) -> Result<Vec<u8>, String> {
+            let mut out = vec![0u8; len];
+            self.0
+                .hkdf_s256_expand(info, &mut out, t)
+                .map_err(|e| format!("{e:?}"))?;
+            Ok(out)
+        }
+
+        /// `to_kid_iter` of the usages that expose it ("es256" | "rs256" | "jwe").
+        pub fn kids(&self, usage: &str) -> Vec<String> {
+            match usage {
+                "es256" => self.0.jws_es256_kid(),
+                "rs256" => self.0.jws_rs256_kid(),
+                "jwe" => self.0.jwe_a128gcm_kid(),
+                _ => Vec::new(),
+            }
+            .into_iter()
+            .map(|k| k.to_string())
+            .collect()
+        }
+    }
+
+    /// HKDF-SHA256 expand of `prk` exactly as `KeyObjectInternalHkdfS256::hkdf_s256_expand` does it.
+    pub fn hkdf_expand_with(prk: &[u8], info: &[u8], len: usize) -> Option<Vec<u8>> {
+        let mut out = vec![0u8; len];
+        let hkdf = HkdfSha256::from_prk(prk).ok()?;
+        hkdf.expand(info, &mut out).ok()?;
+        Some(out)
+    }
+
+    /// Public key DER of a stored private DER (what `revoke` / a `Retained` record keeps).
+    pub fn public_der(usage: &str, private_der: &[u8]) -> Result<Vec<u8>, String> {
+        match usage {
+            "es256" => JwsEs256Signer::from_es256_der(private_der)
+                .and_then(|s| s.get_verifier())
+                .and_then(|v| v.public_key_to_der())
+                .map_err(|e| format!("{e:?}")),
+            "rs256" => JwsRs256Signer::from_rs256_der(private_der)
+                .and_then(|s| s.get_verifier())
+                .and_then(|v| v.public_key_to_der())
+                .map_err(|e| format!("{e:?}")),
+            other => Err(format!("no public form for {other}")),
+        }
+    }
+}
